@@ -23,6 +23,36 @@ structure Similar (P : List Char → Prop) (g g' : Grammar) : Prop where
   size : g'.input.size = g.input.size
   skip : ∀ ws, P ws → ∀ f p, skipWsFrom g'.input ws f p = skipWsFrom g.input ws f p
 
+/-- two `Match` nodes that are the same object up to their class — `StrMatch` versus a regex match
+(`RegExMatch`, textX's `KeywordMatch`) — and whose token never matches the empty string (the only place
+where `Match.parse` treats the two classes differently) -/
+def NodeEqv (g : Grammar) (nd' nd : Node) : Prop :=
+  nd' = nd ∨ (nd' = { nd with kind := nd'.kind } ∧ (nd'.kind = .str ∨ nd'.kind = .re) ∧
+    (nd.kind = .str ∨ nd.kind = .re) ∧ ∀ p, tokLen g nd.tok p ≠ some 0)
+
+/-- `Similar`, except that the node tables may differ in the class of never-empty `Match` nodes (`NodeEqv`) -/
+structure SimilarK (P : List Char → Prop) (g g' : Grammar) : Prop where
+  nodes : ∀ id : Nat, (g.nodes[id]? = none ∧ g'.nodes[id]? = none) ∨
+    ∃ nd nd', g.nodes[id]? = some nd ∧ g'.nodes[id]? = some nd' ∧ NodeEqv g nd' nd
+  comments : g'.comments = g.comments
+  memo : g'.memo = g.memo
+  toks : g'.toks = g.toks
+  size : g'.input.size = g.input.size
+  skip : ∀ ws, P ws → ∀ f p, skipWsFrom g'.input ws f p = skipWsFrom g.input ws f p
+
+theorem Similar.toK {P : List Char → Prop} {g g' : Grammar} (sim : Similar P g g') : SimilarK P g g' where
+  nodes := by
+    intro id
+    rw [sim.nodes]
+    cases h : g.nodes[id]? with
+    | none => exact .inl ⟨rfl, rfl⟩
+    | some nd => exact .inr ⟨nd, nd, rfl, rfl, .inl rfl⟩
+  comments := sim.comments
+  memo := sim.memo
+  toks := sim.toks
+  size := sim.size
+  skip := sim.skip
+
 structure WsOk (P : List Char → Prop) (g : Grammar) : Prop where
   strip : ∀ ws, P ws → P (stripEol ws)
   node : ∀ (id : Nat) (nd : Node), g.nodes[id]? = some nd → ∀ w, nd.ws = some w → P w
@@ -63,12 +93,12 @@ theorem Inv.setEolterm {g : Grammar} (w : WsOk P g) {s : PState} (h : Inv P s) (
 
 theorem Inv.skipWs {s : PState} (h : Inv P s) (g : Grammar) : Inv P (skipWs g s) := h
 
-theorem skipWs_congr {g g' : Grammar} (sim : Similar P g g') {s : PState} (h : Inv P s) :
+theorem skipWs_congr {g g' : Grammar} (sim : SimilarK P g g') {s : PState} (h : Inv P s) :
     skipWs g' s = skipWs g s := by
   unfold Peg.skipWs
   rw [sim.size, sim.skip _ h.1]
 
-theorem tokLen_congr {g g' : Grammar} (sim : Similar P g g') (t p : Nat) : tokLen g' t p = tokLen g t p := by
+theorem tokLen_congr {g g' : Grammar} (sim : SimilarK P g g') (t p : Nat) : tokLen g' t p = tokLen g t p := by
   unfold tokLen; rw [sim.toks]
 
 end
@@ -303,7 +333,7 @@ theorem unordLoop_congr (h : SimP P p' p) (sep : Option Nat) : ∀ k todo acc fi
         | fuel => fin h2
         | bad => fin h2
 
-theorem commentsIter_congr (sim : Similar P g g') (h : SimP P p' p) (cm : Nat) : ∀ k,
+theorem commentsIter_congr (sim : SimilarK P g g') (h : SimP P p' p) (cm : Nat) : ∀ k,
     SimF P (commentsIter g' p' cm k) (commentsIter g p cm k) := by
   intro k
   induction k with
@@ -324,7 +354,7 @@ theorem commentsIter_congr (sim : Similar P g g') (h : SimP P p' p) (cm : Nat) :
     | fuel => fin h2
     | bad => fin h2
 
-theorem commentsLoop_congr (sim : Similar P g g') (h : SimP P p' p) (k : Nat) :
+theorem commentsLoop_congr (sim : SimilarK P g g') (h : SimP P p' p) (k : Nat) :
     SimF P (commentsLoop g' p' k) (commentsLoop g p k) := by
   intro s hs
   simp only [commentsLoop, sim.comments]
@@ -332,7 +362,7 @@ theorem commentsLoop_congr (sim : Similar P g g') (h : SimP P p' p) (k : Nat) :
   | none => fin hs
   | some cm => exact commentsIter_congr sim h cm k s hs
 
-theorem matchNode_congr (sim : Similar P g g') {pc pc' : PState → Res × PState} (hpc : SimF P pc' pc)
+theorem matchNode_congr (sim : SimilarK P g g') {pc pc' : PState → Res × PState} (hpc : SimF P pc' pc)
     (id : Nat) (nd : Node) : SimF P (matchNode g' pc' id nd) (matchNode g pc id nd) := by
   intro s hs
   simp only [matchNode, skipWs_congr sim hs, tokLen_congr sim, sim.size]
@@ -385,6 +415,25 @@ theorem matchNode_congr (sim : Similar P g g') {pc pc' : PState → Res × PStat
   · split
     · exact hs0
     · cases r <;> exact c2
+
+/-- `Match.parse` does not depend on the class of a `Match` node whose token never matches empty -/
+theorem matchNode_kind (g : Grammar) (pc : PState → Res × PState) (id : Nat) {nd' nd : Node} (h : NodeEqv g nd' nd)
+    (s : PState) : matchNode g pc id nd' s = matchNode g pc id nd s := by
+  rcases h with rfl | ⟨he, hk', hk, hz⟩
+  · rfl
+  · have hs : nd'.suppress = nd.suppress := by rw [he]
+    have ht : nd'.tok = nd.tok := by rw [he]
+    unfold matchNode
+    simp only [hs, ht]
+    rcases hk' with hk' | hk' <;> rcases hk with hk | hk <;> simp only [hk, hk']
+    all_goals
+      split
+      · split
+        · rename_i len hl
+          have hne : len ≠ 0 := by intro h0; subst h0; exact hz _ hl
+          simp [hne]
+        · rfl
+      · rfl
 
 /-- state in which `withWsCtx` runs its body -/
 def wsEnter (nd : Node) (s : PState) : PState :=
@@ -517,37 +566,47 @@ theorem bodyNode_congr (w : WsOk P g) (h : SimP P p' p) (k : Nat) {nd : Node} (h
     · fin hs
   · fin hs
 
-theorem nodeParse_congr (sim : Similar P g g') (w : WsOk P g) (h : SimP P p' p) (k : Nat) :
+theorem nodeParse_congr (sim : SimilarK P g g') (w : WsOk P g) (h : SimP P p' p) (k : Nat) :
     SimP P (nodeParse g' p' k) (nodeParse g p k) := by
   intro id s hs
-  simp only [nodeParse, sim.nodes, sim.memo]
-  cases hnd : g.nodes[id]? with
-  | none => fin hs
-  | some nd =>
+  simp only [nodeParse, sim.memo]
+  rcases sim.nodes id with ⟨h1, h2⟩ | ⟨nd, nd', h1, h2, he⟩
+  · rw [h1, h2]; fin hs
+  · rw [h1, h2]
     dsimp only
-    have hm := matchNode_congr sim (commentsLoop_congr sim h k) id nd s hs
-    split
-    · exact hm
-    · exact hm
-    · exact hm
-    · exact wrap_congr g.memo id nd (bodyNode_congr w h k (w.node id nd hnd)) s hs
+    have hm := matchNode_congr sim (commentsLoop_congr sim h k) id nd' s hs
+    rw [matchNode_kind g _ id he] at hm
+    rcases he with rfl | ⟨_, hk', hk, _⟩
+    · split
+      · exact hm
+      · exact hm
+      · exact hm
+      · exact wrap_congr g.memo id nd' (bodyNode_congr w h k (w.node id nd' h1)) s hs
+    · rcases hk' with hk' | hk' <;> rcases hk with hk | hk <;> simp only [hk, hk'] <;> exact hm
 
 /-- **Congruence of the interpreter.**  Parser configurations that differ only in the input text, with
 equal token tables, equal input length and equal whitespace-skipping behaviour, give the same result and
 the same final parser state for every node, every fuel and every start state satisfying the invariant. -/
-theorem parse_congr (sim : Similar P g g') (w : WsOk P g) : ∀ n, SimP P (parse g' n) (parse g n) := by
+theorem parse_congrK (sim : SimilarK P g g') (w : WsOk P g) : ∀ n, SimP P (parse g' n) (parse g n) := by
   intro n
   induction n with
   | zero => intro id s hs; exact ⟨rfl, hs⟩
   | succ n ih => exact nodeParse_congr sim w ih n
 
+theorem parse_congr (sim : Similar P g g') (w : WsOk P g) : ∀ n, SimP P (parse g' n) (parse g n) :=
+  parse_congrK sim.toK w
+
 theorem initState_inv {skipws : Bool} {ws : List Char} (h : P ws) : Inv P (initState skipws ws) := ⟨h, h⟩
 
 /-- the outcome of a whole parse is the same -/
-theorem run_congr (sim : Similar P g g') (w : WsOk P g) (top : Nat) (skipws : Bool) {ws : List Char} (hws : P ws)
+theorem run_congrK (sim : SimilarK P g g') (w : WsOk P g) (top : Nat) (skipws : Bool) {ws : List Char} (hws : P ws)
     (fuel : Nat) : run g' top skipws ws fuel = run g top skipws ws fuel := by
   unfold run
-  rw [(parse_congr sim w fuel top _ (initState_inv hws)).1]
+  rw [(parse_congrK sim w fuel top _ (initState_inv hws)).1]
+
+theorem run_congr (sim : Similar P g g') (w : WsOk P g) (top : Nat) (skipws : Bool) {ws : List Char} (hws : P ws)
+    (fuel : Nat) : run g' top skipws ws fuel = run g top skipws ws fuel :=
+  run_congrK sim.toK w top skipws hws fuel
 
 end
 end Peg
